@@ -108,6 +108,8 @@ def injections():
     for subj in ('nosuch', '(c, nosuch)', '(nosuch, c)', '"c "', '(`c*2`, nosuch)'):
         out.append(('missing-column', f'missing-column index {subj}', f'Table t9 {{\n  c int\n  indexes {{\n    {subj}\n  }}\n}}\n'))
         out.append(('missing-column', f'missing-column index {subj} (block first)', f'Table t9 {{\n  indexes {{\n    c\n    {subj} [unique]\n  }}\n  c int\n}}\n'))
+    out.append(('missing-column', 'missing-column in a second indexes block', 'Table t9 {\n  c int\n  indexes {\n    c\n  }\n  d int\n  indexes {\n    nosuch\n  }\n}\n'))
+    out.append(('missing-column', 'missing-column in the first of two indexes blocks', 'Table t9 {\n  indexes {\n    (c, nosuch)\n  }\n  c int\n  indexes {\n    c\n  }\n}\n'))
     for item in ('nosuch', 's.b', 'q.a', 'public.nosuch', '"a "', 'q.aa', 's.bb'):
         out.append(('missing-table', f'missing-table group {item}', f'TableGroup h {{\n  a\n  {item}\n}}\n'))
         out.append(('missing-table', f'missing-table group {item} first', f'TableGroup h {{\n  {item}\n  b\n}}\n'))
